@@ -1,5 +1,5 @@
 """C19 - no argument values make the C extension access memory outside its matrices.
-blas.c (all wrappers) and lapack.c (the routines the solvers rely on): the symbolic runs of C17 / C18
+blas.c (all wrappers), lapack.c (the routines the solvers rely on) and the BLAS-backed wrappers of base.c (dense arguments): the symbolic runs of C17 / C18
 (vp/checks/c17.py, c18.py), obligations Q_small / Q_wrap / direct accesses; one evidence file."""
 from vp.checks import c17, c18
 def main(tier):
@@ -7,8 +7,9 @@ def main(tier):
     ev = common.Evidence('C19', 'model_checking', tier)
     v1, k1, h1, i1 = c17.main(tier, 'C19', ev)
     v2, k2, h2, i2 = c18.main(tier, 'C19', ev)
+    v3, k3, h3, i3 = c17.main(tier, 'C19', ev, src='base')
     ev.assumptions = sorted(set(ev.assumptions))
-    return common.finish(ev, v1 + v2, sorted(set(k1 + k2)), h1 + h2, i1 + i2)
+    return common.finish(ev, v1 + v2 + v3, sorted(set(k1 + k2 + k3)), h1 + h2 + h3, i1 + i2 + i3)
 def replay_main(path):
     import json
     d = json.load(open(path))
